@@ -315,7 +315,7 @@ def seed_from_env():
         return DEFAULT_SEED
 
 
-def budget_s(tier, quick=45, thorough=540):
+def budget_s(tier, quick=150, thorough=540):
     v = os.environ.get('VERIF_BUDGET_S')
     if v:
         try:
@@ -327,7 +327,8 @@ def budget_s(tier, quick=45, thorough=540):
 
 # The quick tier draws a fixed number of cases (the first N of the seeded stream), so that what it explores is a
 # function of VERIF_SEED and the code and not of the machine's speed; the wall-clock budget stays as the upper bound
-# (a slower machine explores a prefix).  Sized at about four fifths of what 16 workers do in the 45 s budget; for C13
+# (150 s: a machine more than three times slower explores a prefix).  Sized at about four fifths of what 16 workers
+# do in 45 s; for C13
 # and C17 the number counts base histories, each of which is followed by all of its fault variants.
 QUICK_CASES = {'C05': 14000, 'C09': 36000, 'C10': 36000, 'C11': 36000, 'C12': 36000, 'C13': 1900, 'C14': 22000,
                'C15': 36000, 'C16': 36000, 'C17': 1400, 'C19': 13000, 'C20': 15000, 'C21': 13000, 'C22': 6000,
